@@ -47,11 +47,18 @@ fn name_of(e: Entity) -> String
     })
 }
 
+/// Resolves a name. A system whose callback insertion is still queued cannot be named by any action: Bevy's
+/// `Commands::spawn` panics if the reserved entity is despawned (directly, or by the garbage collection after a
+/// non-persistent registration) before the insert command is applied.
 fn resolve(r: Ref) -> Option<Entity>
 {
     SH.with(|s| {
         let s = s.borrow();
-        match r { Ref::E(k) => s.ent_names.get(k).copied(), Ref::S(k) => s.sys_names.get(k).copied() }
+        match r
+        {
+            Ref::E(k) => s.ent_names.get(k).copied(),
+            Ref::S(k) => s.sys_names.get(k).copied().filter(|e| s.ready.contains(e)),
+        }
     })
 }
 
